@@ -331,7 +331,7 @@ def exec_search(ctx, parts):
     thorough = ctx.thorough
     items = [(g, cases, "corpus") for g, cases in corpus_modules()]
     base = ctx.rng.randrange(1 << 30)
-    n_rv = 30 if thorough else 3
+    n_rv = 24 if thorough else 3
     for k in range(n_rv):
         r = random.Random(base + k)
         g = irgen.gen_module(r, cfg_riscv(), name=f"rv{base + k}")
@@ -349,7 +349,7 @@ def exec_search(ctx, parts):
     except Exception as e:  # noqa
         ctx.note(f"c_modules('riscv') unavailable: {type(e).__name__}: {e}"[:200])
     x_items = [(g, cases, tag) for g, cases, tag in corpus_modules_tagged()]
-    n_x = 24 if thorough else 3
+    n_x = 20 if thorough else 3
     for k in range(n_x):
         r = random.Random(base + 1000 + k)
         g = irgen.gen_module(r, cfg_x86(), name=f"x{base + 1000 + k}")
